@@ -6,12 +6,12 @@ ALL = ["C%02d" % i for i in range(1, 21)]
 
 CHECKS = {
  "C16": dict(level="model_checking", ref="4-C16",
-   text="Explicit-state BFS on the real VarsManager: every history of parameter-manager operations up to depth 3 (quick) / 4 (thorough) from every configuration-order set-up (fix, tie, complex tie, shared radius, one/two-sided bounds); every transition checked against a reference relation derived from the statement and state invariants; Bound transform/inverse/slope on lattices for all bound kinds against 50-digit mpmath.",
-   note="Values come from a finite menu; masks/temp blocks name real scalars only; RNG answers scripted; equal canonical states merged (canonical form = every field the manager reads).",
+   text="Explicit-state BFS on the real VarsManager: every history of parameter-manager operations up to depth 3 (thorough: depth 4 on four basic set-ups, depth 3 on 18) from every configuration-order set-up (fix, tie, complex tie, shared radius, one/two-sided bounds, a fixed member tied to a free head, two tie groups merged by a third tie); every transition checked against a reference relation derived from the statement and state invariants; a scripted product of masks that name complex components x coordinate operations (stored values after the block); Bound transform/inverse/slope on lattices for all bound kinds against 50-digit mpmath.",
+   note="Values come from a finite menu; in the BFS masks/temp blocks name real scalars only; preservation under coordinate operations is not claimed for a variable with exactly one component tied to another variable (no other coordinate form exists); RNG answers scripted; equal canonical states merged (canonical form = every field the manager reads).",
    technique="explicit-state BFS over operation histories on the implementation, reference relation + invariants in every state"),
  "C17": dict(level="fault_enumeration", ref="4-C17",
-   text="(0 faults) explicit-state BFS to depth 2 (quick) / 3 (thorough) over histories of read-only computations (partial weights, interference weights, fit fractions old/new/no-grad, exhausted and abandoned factor iterations, density evaluations), override blocks with bodies and nested blocks, and persistent selection/parameter operations, on real AmplitudeModels (eager and tf.function); (1 fault) an exception at every amplitude-evaluation seam call / block body of every read-only operation from every state up to the fault depth. Post-condition after every execution: parameters bitwise, active chains, masks, factor masks, registry, and probe-event density through first-call, cached-call and new-object paths equal those of a reference world that executed only the persistent operations.",
-   note="Faults are Python exceptions at amplitude evaluation seams and block bodies; a failing restore assignment is not injected. Three-body decay groups only (thorough adds a second resonance per slot and a spin-1 final particle).",
+   text="(0 faults) explicit-state BFS to depth 2 (thorough: larger alphabet and six models) over histories of read-only computations (partial weights, interference weights, fit fractions old/new/no-grad, exhausted and abandoned factor iterations, density evaluations), override blocks with bodies and nested blocks (every ordered pair of the 10 block kinds from the initial state), and persistent selection/parameter operations, on real AmplitudeModels (eager; tf.function evaluated and traced before the history starts; a four-body group in which two chains share a decay); (1 fault) an exception at every amplitude-evaluation seam call / block body of every read-only operation from every state up to the fault depth. Post-condition after every execution: parameters bitwise, active chains, masks, factor masks, registry, and probe-event density through first-call, cached-call and new-object paths equal those of a reference world that executed only the persistent operations.",
+   note="Faults are Python exceptions at amplitude evaluation seams and block bodies; a failing restore assignment is not injected. Three-body groups and one four-body group (one level less deep; thorough adds a second resonance per slot, a spin-1 final particle and an untraced tf.function model). Depth 3 (~3e5 executions) is available through C17_DEPTH but not registered.",
    technique="deviation-bounded fault enumeration + explicit-state BFS on the implementation with a differential reference world"),
  "C12": dict(level="exploration", ref="4-C12",
    text="Exhaustive over all (j,m,m') with 2j<=8 on a beta lattice that (by the polynomial-degree argument) decides the small-d identity for every angle; D-matrix values, unitarity and the group law on Euler lattices; every Clebsch-Gordan label with j<=4 (quick: half-integer labels up to 5/2) against Racah's formula in exact rationals, table agreement wherever the table has an entry; SU(2) Euler-angle extraction on rotations (incl. beta=0,pi) and Wigner rotations of rotation-boost products.",
@@ -26,7 +26,7 @@ CHECKS = {
    note="Groupings are computed by the harness' own traversal; reference enumeration by recursive bipartition.",
    technique="exhaustive enumeration of labelled binary trees and small decay groups with a reference enumerator"),
  "C15": dict(level="exploration", ref="4-C15",
-   text="Enumerates the line-shape functions of tf_pwa.breit_wigner (L=0..8 x d in {1,3,5} x m0 x Gamma0 x mass lattice) and the registered particle models through ConfigLoader/Particle.__call__ (BW, default/BWR, BWR2, BWR_below, BWR_normal, BWR_coupling, GS_rho, BWR_LS (+fix_bug1), BWR_LS2, Flatte, FlatteC, one, x, exp, exp_com) against the documented formulas evaluated independently in numpy complex128: value, Im R > 0, R(m0) = i/(m0 Gamma0), Gamma(m0) = Gamma0, B_L(q0)=1, barrier polynomial = |theta_L(iz)|^2 from exact reverse Bessel coefficients, q^2-variants, symbolic denominators.",
+   text="Enumerates the line-shape functions of tf_pwa.breit_wigner (L=0..8 x d in {1,3,5} x m0 x Gamma0 x mass lattice) and the registered particle models through ConfigLoader/Particle.__call__ (BW, default/BWR, BWR2, BWR_below, BWR_normal, BWR_coupling, GS_rho, BWR_LS (+fix_bug1), BWR_LS2, MultiBWR, MultiBW with 2-3 (l,s) couplings through get_ls_amp, Flatte, FlatteC, FlatteGen and Flatte2 with every option, one, x, exp, exp_com) against the documented formulas evaluated independently in numpy complex128: value, Im R > 0, R(m0) = i/(m0 Gamma0), Gamma(m0) = Gamma0, B_L(q0)=1, barrier polynomial = |theta_L(iz)|^2 from exact reverse Bessel coefficients, q^2-variants, symbolic denominators (Flatte family on the sheet whose momenta are the numeric ones), numeric evaluation repeated after the symbolic polynomials of the same L were built.",
    note="float64 tensor inputs; values compared above threshold, finiteness below; GS_rho at 1e-7 (documented pion masses are rounded to float32 inside the library).",
    technique="bounded-exhaustive enumeration of (model, L, d, parameters, mass lattice) against independent closed-form references"),
  "C10": dict(level="exploration", ref="4-C10",
@@ -34,23 +34,23 @@ CHECKS = {
    note="The statistical claim 'uniform for all seeds' is replaced by its sufficient algebraic conditions under an owned RNG; no statistical test is run.",
    technique="environment-answer enumeration with an owned RNG + bounded-exhaustive lattices against numpy kinematics"),
  "C11": dict(level="exploration", ref="4-C11",
-   text="Four-vectors x velocities lattice (|v| up to 0.999, 8 directions, massless and massive): boost inverse, invariants, boost_matrix = boost, rest_vector, against an independent numpy Lorentz transformation; HelicityAngle.build_data -> cal_angle -> find_variable round trip for every chain shape with 3 and 4 final particles and every 5th (thorough: every) 5-body shape x mass patterns x (cos theta, phi) product lattices per vertex, plus an independent check of the constructed momenta; Dalitz.generate_p on lattices for 3 mass sets.",
+   text="Four-vectors x velocities lattice (|v| up to 0.999, 8 directions, massless and massive): boost inverse, invariants, boost_matrix = boost, rest_vector, against an independent numpy Lorentz transformation; HelicityAngle.build_data -> cal_angle -> find_variable round trip for every chain shape with 3 and 4 final particles and every 5th (thorough: every) 5-body shape x mass patterns x (cos theta, phi) product lattices per vertex, plus an independent check of the constructed momenta and an edge alphabet (every intermediate state 1e-4 / 1e-7 above threshold, |cos theta| = 0.99999, tolerance 1e-5 / 1e-4); Dalitz.generate_p on lattices for 3 mass sets.",
    note="Tolerances scale with gamma^2; squared masses compared for massless particles; cos(theta) lattice excludes +-1.",
    technique="bounded-exhaustive enumeration of chain shapes x kinematic lattices with round-trip and independent reference oracles"),
  "C18": dict(level="exploration", ref="4-C18",
-   text="All nested dict/list/tuple structures of a grammar (depth<=3, empty dict/list/tuple at every position, leaves (N,), (N,4), (N,2,2)) x N in {1,2,5(,7)} x batch in {1,2,3,N-1,N,N+1,2N}: split content, count, merge round trip, batch_call/batch_sum = whole-sample application; ALL 2^N boolean masks; every key path; N=1001 with batch 1 (eager and lazy); files: text/npy/npz, every dat_order permutation, every composition into 1-3 files, both savetxt implementations, save_data/save_dataz; LazyCall iteration/eval/merge vs eager for every dict structure, with and without extra entries.",
+   text="All nested dict/list/tuple structures of a grammar (depth<=3, empty dict/list/tuple at every position, leaves (N,), (N,4), (N,2,2)) x N in {1,2,5(,7)} x batch in {1,2,3,N-1,N,N+1,2N}: split content, count, merge round trip, batch_call/batch_sum = whole-sample application; ALL 2^N boolean masks; every key path; N=1001 with batch 1 (eager and lazy); files: text/npy/npz, every dat_order permutation, every composition into 1-3 files, both savetxt implementations, save_data/save_dataz; cached-data files of the configuration layer x weight options (loaded without cache = written = read back twice); LazyCall iteration/eval/merge vs eager for every dict structure, with and without extra entries; every sequence of up to three batch sizes on one file-backed lazy object.",
    note="Reference = numpy slicing/concatenation/indexing, exact equality. ROOT input not exercised.",
    technique="bounded-exhaustive enumeration of data structures x sizes x batch sizes x masks against a numpy reference"),
  "C20": dict(level="model_checking", ref="4-C20",
-   text="(a) Explicit-state exploration of the accept-reject loop (multi_sampling, as used by generate_toy / generate_toy_p / ARGenerator) under an environment owned by the harness: every sequence of per-batch weight patterns from a 6-element menu up to depth 3 (quick) / 4 (thorough) x (N, max_N, force, initial bound, importance function); every batch (transition) checked for bound >= weights and kept = {u*bound < w}, every re-thinning for weight independence, every final state for the exact count and for each returned event having been accepted under a bound >= its weight; end-to-end exact count / physical events on a real model; interp_sample_f. (b) LinearInterp on 7 grids (flat, steep, zero nodes, 2-6 nodes), BWGenerator, InterpND / InterpNDHist in 1-D and 2-D on uniform and non-uniform grids: CDF inversion on u lattices, range, per-cell mass vs the exact integral of the interpolant under a stratified script, within-cell kernel inversion. (c) adaptive bins for N=4..12, 3 orderings, 8 layouts incl. ties and 2-D. (d) weighted histograms: sum w and sum w^2 for 4 weight sets x 4 binnings.",
+   text="(a) Explicit-state exploration of the accept-reject loop (multi_sampling, as used by generate_toy / generate_toy_p / ARGenerator) under an environment owned by the harness: every sequence of per-batch weight patterns from a 6-element menu up to depth 3 (quick) / 4 (thorough) x (N, max_N, force, initial bound, importance function); every batch (transition) checked for bound >= weights and kept = {u*bound < w}, every re-thinning for weight independence, every final state for the exact count and for each returned event having been accepted under a bound >= its weight; end-to-end exact count / physical events on a real model; interp_sample_f. (b) LinearInterp on 7 grids (flat, steep, zero nodes, 2-6 nodes), BWGenerator, InterpND / InterpNDHist in 1-D and 2-D on uniform and non-uniform grids: CDF inversion on u lattices, range, per-cell mass vs the exact integral of the interpolant under a stratified script, within-cell kernel inversion, per-cell first moments of the local coordinates in 2-D and 3-D under low-discrepancy numbers. (c) adaptive bins for N=4..12, 3 orderings, 8 layouts incl. ties and 2-D. (d) weighted histograms: sum w and sum w^2 for 4 weight sets x 4 binnings.",
    note="'Follows the model density' and the all-seeds statistical statements are decided only through their algebraic sufficient conditions under owned random numbers; no statistical test is run.",
    technique="explicit-state exploration of the sampler loop with an owned environment (all menu sequences to a depth) + bounded-exhaustive lattices"),
  "C06": dict(level="exploration", ref="4-C06",
-   text="Product enumeration: 10 likelihood models selectable by configuration (default, extended, cfit, cfit+cached_amp, cfit+extended, cached_int, cached_amp, simple, simple_clip, simple_cfit) x weight patterns for data/phase space/background (absent, positive, mixed signs; quick: pairwise-covering subset, thorough: full product) x background sample none / unweighted (-w_bkg) / own weights x batch sizes incl. non-dividing x 1 or 2 simultaneous data sets with different w_bkg x Gaussian constraint x parameter points; all three value paths (fcn(x), nll_grad[0], nll_grad_hessian[0]) against the defining formula in numpy; rescaling invariance; histories of get_fcn over three different samples on one ConfigLoader (id-keyed / lru caches).",
+   text="Product enumeration: 10 likelihood models selectable by configuration (default, extended, cfit, cfit+cached_amp, cfit+extended, cached_int, cached_amp, simple, simple_clip, simple_cfit) x weight patterns for data/phase space/background (absent, positive, mixed signs, for the phase-space sample as well; quick: orthogonal array L9, thorough: full product) x background sample none / unweighted (-w_bkg) / own weights x batch sizes incl. non-dividing x 1 or 2 simultaneous data sets with different w_bkg x Gaussian constraint x parameter points; all three value paths (fcn(x), nll_grad[0], nll_grad_hessian[0]) against the defining formula in numpy; rescaling invariance; histories of get_fcn over three different samples on one ConfigLoader (id-keyed / lru caches).",
    note="The density is taken from the library's eager unbatched pdf (C01-C05 cover it). Events above the clip threshold. inject_mc excluded by the statement.",
    technique="bounded-exhaustive product enumeration of likelihood configurations + explicit histories, numpy reference formula"),
  "C07": dict(level="exploration", ref="4-C07",
-   text="For every model of C06 x floating/constraint scenario (couplings; mass+width with Gaussian constraint; mass with a fixed and a tied coupling; width with two constraints) x batch sizes x points (+ two simultaneous data sets sharing a constraint): nll_grad, nll_grad_hessian and grad_hessp (unit, ones and ramp direction vectors) against automatic differentiation (nested tapes) of the stand-alone value the object reports; the three bound-transformation wrappers for two-sided, lower, upper, custom-expression and mixed bounds on an exact quadratic and on the real NLL against the chain rule with y', y'' from 40-digit mpmath differentiation.",
+   text="For every model of C06 x floating/constraint scenario (couplings; mass+width with Gaussian constraint; mass with a fixed and a tied coupling; width with two constraints) x batch sizes x points (+ two simultaneous data sets sharing a constraint): nll_grad, nll_grad_hessian and grad_hessp (unit, ones and ramp direction vectors) against automatic differentiation (nested tapes) of the stand-alone value the object reports, the gradient in addition against Richardson-extrapolated central differences of that value along two directions (AD is blind to a detached sub-expression), and every method again after a call at another parameter point; the three bound-transformation wrappers for two-sided, lower, upper, custom-expression and mixed bounds on an exact quadratic and on the real NLL against the chain rule with y', y'' from 40-digit mpmath differentiation.",
    note="Trusted base: TensorFlow reverse-mode AD of the value path; mpmath differentiation. Interior points; cached integrals with fixed line shapes only.",
    technique="bounded-exhaustive enumeration of (model, scenario, batch, direction) with an AD-of-value derivative oracle"),
  "C08": dict(level="exploration", ref="4-C08",
@@ -58,31 +58,31 @@ CHECKS = {
    note="Tiny model (3-5 free parameters); convergence quality is not judged; bound slack 1e-9 relative.",
    technique="explicit-state exploration of fit histories on the implementation with invariants after every transition"),
  "C04": dict(level="exploration", ref="4-C04",
-   text="Cards with a spin-0 parent and three spinless finals: resonance spins J=0..4 x three slots x (m0 at 30/70/5 % of the allowed range) x Gamma0 x three final-state mass sets for single chains, all 25 J pairs for every pair of slots, J triples for all three chains, complex couplings from a 5-element menu; Dalitz lattices in two orientations with every third event in a frame where the parent moves; oracle: |sum_k c_k (-1)^J p^J q^J B_J B_J BW_k P_J(cos theta_k)|^2 evaluated in numpy from the four-momenta.",
+   text="Cards with a spin-0 parent and three spinless finals: resonance spins J=0..4 x three slots x (m0 at 30/70/5 % of the allowed range and 0.1 / 0.8 MeV above threshold) x Gamma0 x three final-state mass sets for single chains, all 25 J pairs for every pair of slots, J triples for all three chains, two and three resonances of different mass in the same two-body system, complex couplings from a 5-element menu; Dalitz lattices in two orientations with every third event in a frame where the parent moves; oracle: |sum_k c_k (-1)^J p^J q^J B_J B_J BW_k P_J(cos theta_k)|^2 evaluated in numpy from the four-momenta.",
    note="Nominal masses inside the kinematically allowed range (outside it the statement fixes no continuation); lattice events; 1e-9 relative.",
    technique="bounded-exhaustive enumeration of decay cards x event lattices against an independent closed-form reference"),
  "C01": dict(level="exploration", ref="4-C01",
-   text="Product of decay cards (6 spin families with integer/half-integer spins, parity violation, restricted final-state helicities, all chain subsets, alternative resonance spin-parities, a second resonance in a slot; 3 identical-particle families with default and centre-of-mass alignment) x Dalitz-lattice events in two generic orientations x a finite set of Lorentz transformations (cube and Euler rotations, boosts up to beta=0.99 in 8 directions, rotation o boost in both orders, spatial inversion, exchange of identical particles); all transformed copies in one evaluation per card; density(g.x) = density(x), finite and non-negative. Edge alphabet (momentum exactly along z, collinear boundary): finite and non-negative only.",
-   note="Lattice events only; a restricted helicity list of the parent is a polarised parent and is excluded; align_ref=center_mass is used only with center_mass=True. Known finding: identical particles with spin and default alignment.",
+   text="Product of decay cards (6 spin families with integer/half-integer spins, parity violation, restricted final-state helicities, all chain subsets, alternative resonance spin-parities, a second resonance in a slot; 3 identical-particle families with default and centre-of-mass alignment; four-body cards: 5 spin sets x combinations of 4 topologies (two cascades through a common three-body state, a pair of two-body states, a cascade recoiling against one particle), two groups of identical particles; 6 alternative decay models: helicity_full, helicity_full-bf, helicity_parity, gls-bf, gls-cpv, LS-decay) x lattice events in two generic orientations x a finite set of Lorentz transformations (cube and Euler rotations, boosts up to beta=0.99 in 8 directions, rotation o boost in both orders, spatial inversion, exchange of identical particles); all transformed copies in one evaluation per card; density(g.x) = density(x), finite and non-negative. Edge alphabet (momentum exactly along z, collinear boundary): finite and non-negative only.",
+   note="Lattice events only; tolerance 1e-9 (four-body cards 1e-6: alignment angle beta = 0 is obtained through acos, observed noise 1e-8); inversion for three-body cards and parity-conserving four-body cards; a restricted helicity list of the parent is a polarised parent and is excluded; align_ref=center_mass is used only with center_mass=True. Known finding: identical particles with spin and default alignment.",
    technique="bounded-exhaustive product enumeration of decay cards x event lattices x a finite set of group elements"),
  "C02": dict(level="exploration", ref="4-C02",
-   text="Every card with spinning final-state particles (incl. spin 1/2, massless restricted-helicity photon) and >= 2 chains (all chain subsets incl. two of three topologies, second resonance in a slot) x ALL permutations of the chain list x option tuples of (align_ref, random_z, center_mass, only_left_angle) (all 16 for the declared order; quick: 7 for the other orders) x events with the parent at rest and moving (beta = 0.6); density equals the reference card's (declared order, defaults) after copying all parameters by name.",
-   note="align_ref=center_mass with a moving parent only together with center_mass=True (usage precondition). Known finding: restricted helicity list + align_ref=center_mass.",
+   text="Every card with spinning final-state particles (incl. spin 1/2, massless restricted-helicity photon) and >= 2 chains (all chain subsets incl. two of three topologies, second resonance in a slot; four-body cards with 2-4 topologies) x ALL permutations of the chain list (four-body: x permutations of the alternatives of the shared intermediate state) x option tuples of (align_ref, random_z, center_mass, only_left_angle) (all 16 for the declared order; quick: 7 for the other orders) x events with the parent at rest and moving (beta = 0.6); density equals the reference card's (declared order, defaults) after copying all parameters by name.",
+   note="align_ref=center_mass with a moving parent only together with center_mass=True (usage precondition). Known findings: restricted helicity list + align_ref=center_mass; default running-width l taken from the first declared decay of a resonance (four-body cards set the documented option bw_l).",
    technique="bounded-exhaustive enumeration of chain permutations x option tuples x frames with a differential oracle"),
  "C03": dict(level="exploration", ref="4-C03",
    text="Decay groups (three-body spin families incl. a second resonance in one slot; a four-body group where one resonance takes part in two chains): every non-empty chain subset equals the sum of its single-chain amplitude tensors; ordered pairs of selections (the selection API is stateful); each chain proportional to its own complex coupling (5-element menu); selection by every resonance-name set of size 1-2 against the card; fit fractions for every resonance list that partitions the chains, also with a restricted sub-model already active, through fit_fractions old / new (FitFractions) / cal_fitfractions_no_grad x batch sizes {1,2,3,N-1,N,N+1,4N,None} x N in {7,16} x weighted/unweighted samples against references built from single-chain integrals; sum rule; selection restored.",
    note="References use plain numpy sums over the library's single-chain amplitudes.",
    technique="bounded-exhaustive enumeration of chain subsets / selection histories / batchings with partial-sum references"),
  "C05": dict(level="exploration", ref="4-C05",
-   text="A1: cards (integer and half-integer spins, two resonances in a slot, an l_list restriction) x strategy tuples (default, cached_amp, cached_amp with stripped angles/momenta, cached_shape, base_factor with and without cached angles, p4_directly) x flags (eager, use_tf_function, +no_id_cached, lazy_call; jit_compile in the thorough tier) x angle options (r_boost, random_z, center_mass, align_ref), each with an explicit-state exploration of the call/cache automaton of AbsPDF.__call__ (states = data ids seen x traced functions x parameter point; operations call(d1), call(d2), set_params(P1|P2)) against plain eager default evaluation on moving-parent events, sampled histories replayed on fresh objects. A2: cached_int / cached_amp / cfit+cached_amp vs their uncached counterparts (NLL and gradient). A3: every contraction expression the amplitude builder emits on the card families (harvested by interposition) plus a synthetic grammar (<=3 operands, <=3 letters each, all ordered output subsets, canonicalised by renaming): tf_pwa.einsum.einsum raises or equals numpy.einsum.",
+   text="A1: cards (integer and half-integer spins, two resonances in a slot, an l_list restriction) x strategy tuples (default, cached_amp, cached_amp with stripped angles/momenta, cached_shape, base_factor with and without cached angles, p4_directly) x flags (eager, use_tf_function, +no_id_cached, lazy_call; jit_compile in the thorough tier) x angle options (r_boost, random_z, center_mass, align_ref), each with an explicit-state exploration of the call/cache automaton of AbsPDF.__call__ (states = data ids seen x traced functions x parameter point; operations call(d1), call(d2), set_params(P1|P2); on two cards also x active chain list with unsorted, cross-topology and temporary selections) against plain eager default evaluation on moving-parent events, sampled histories replayed on fresh objects. A2: cached_int / cached_amp / cfit+cached_amp vs their uncached counterparts (NLL and gradient). A3: every contraction expression the amplitude builder emits on the card families (harvested by interposition) plus a synthetic grammar (<=3 operands, <=3 letters each, all ordered output subsets, canonicalised by renaming): tf_pwa.einsum.einsum raises or equals numpy.einsum.",
    note="The abstract automaton state is the complete mutable hidden state of AbsPDF/WrapFun (checked by fresh-object replays). XLA only in the thorough tier.",
    technique="explicit-state exploration of the evaluation-cache automaton + bounded-exhaustive enumeration of strategy tuples and contraction programs"),
  "C09": dict(level="exploration", ref="4-C09",
-   text="A1: every arithmetic operator of NumberError (+,-,*,/,**, unary -, log, exp, apply with and without a gradient, cal_err with every pattern of exact/uncertain operands) x operand patterns (both uncertain, right exact, left exact = reflected forms) x values {0.5,2,7.5,-3} x errors {0.1,0.25} against first-order propagation with mpmath derivatives, error >= 0. A2: get_params_error (default, correct, hesse, 3-point) and cal_hesse_error after a converged fit for couplings / bounded mass / lower-bounded width scenarios against sqrt(diag(H^-1)) with H from AD of the reported NLL; trans_error_matrix against y' V y'. A3: fit-fraction errors (old/new x every resonance and interference entry x identity/diagonal/correlated covariance x batch sizes x weighted/unweighted x floating sets) against sqrt(J V J^T) with J the AD Jacobian of the fraction rebuilt from partial-sum densities. A4: vm.error_trans and ConfigLoader.params_trans for 7 expressions (scalar, vector, dict valued) x 3 covariances.",
+   text="A1: every arithmetic operator of NumberError (+,-,*,/,**, unary -, log, exp, apply with and without a gradient, cal_err with every pattern of exact/uncertain operands) x operand patterns (both uncertain, right exact, left exact = reflected forms) x values {0.5,2,7.5,-3} x errors {0.1,0.25} against first-order propagation with mpmath derivatives, error >= 0. A2: get_params_error (default, correct, hesse, 3-point) and cal_hesse_error after a converged fit for couplings / bounded mass / lower-bounded width scenarios against sqrt(diag(H^-1)) with H from AD of the reported NLL; trans_error_matrix against y' V y' on the principal and on the mirrored branch of the bound function. A3: fit-fraction errors (old/new x every resonance and interference entry x identity/diagonal/correlated covariance x batch sizes x weighted/unweighted x floating sets) against sqrt(J V J^T) with J the AD Jacobian of the fraction rebuilt from partial-sum densities. A4: vm.error_trans and ConfigLoader.params_trans for 7 expressions (scalar, vector, dict valued) x 3 covariances.",
    note="First-order propagation; reflected operators the class does not implement are counted as not offered; A2 needs a positive-definite Hessian (obtained by converging first).",
    technique="bounded-exhaustive enumeration of operators / operand patterns / derived quantities with AD and mpmath Jacobian oracles"),
  "C19": dict(level="exploration", ref="4-C19",
-   text="(a) Explicit exploration of load histories: every sequence of 2 (quick) / 3 (thorough) loads over five cards that share particle names but differ in spins, candidate lists and options, in one process with the same dict objects reused; the full model signature (chains with quantum numbers and (l,s) lists, variable names, trainable set, ties, bounds, Gaussian constraints, fixed line-shape values, density on probe events with parameters set by name) must equal that of the card loaded first in a fresh interpreter, and the caller's dict must not be modified. (b,c,e) A grammar of generated cards (resonance spin-parities x candidate lists x per-decay options p_break / l_list, three- and four-body): kept chains = reference chain expansion filtered by the C13 reference (l,s) rules, declared top and finals, as_config() -> load reproduces chains and quantum numbers. (d) Aliases (Par, m0, g0, bw), $include (plain, list, with overrides in the same and in the other alias spelling), candidate lists, and key-order permutations of the particle and decay sections equal their expanded form.",
+   text="(a) Explicit exploration of load histories: every sequence of 2 (quick) / 3 (thorough) loads over five cards that share particle names but differ in spins, candidate lists and options, in one process with the same dict objects reused; the full model signature (chains with quantum numbers and (l,s) lists, variable names, trainable set, ties, bounds, Gaussian constraints, fixed line-shape values, density on probe events with parameters set by name) must equal that of the card loaded first in a fresh interpreter, and the caller's dict must not be modified. (b,c,e) A grammar of generated cards (resonance spin-parities x candidate lists x per-decay options p_break / l_list, three- and four-body): kept chains = reference chain expansion filtered by the C13 reference (l,s) rules, declared top and finals, as_config() -> load reproduces chains and quantum numbers. (d') $include by file path: every ordered pair (thorough: triple) of cards that include the same file with and without local overrides, in one process. (d) Aliases (Par, m0, g0, bw), $include (plain, list, with overrides in the same and in the other alias spelling), candidate lists, and key-order permutations of the particle and decay sections equal their expanded form.",
    note="Fresh-process references are computed in separate interpreters, once per card.",
    technique="explicit-state exploration of load histories with a fresh-process differential oracle + bounded-exhaustive card grammar against a reference expansion"),
 }
